@@ -901,6 +901,34 @@ def _ol_inputs(kinds, n):
     raise _Unmodelled(f"argument shape {kinds}")
 
 
+def _slices_reach_override(ctx, decs, m):
+    """(bool, why): can the OrderingList override of `m` be entered with a SLICE index when the list is an instrumented
+    relationship collection?  The instrumented wrapper of orm.collections (C38's decorators) wraps the override: if it hands
+    a slice on to the wrapped method (`fn(self, index)` reachable when `isinstance(index, slice)`) the override has to cope
+    with it; if it decomposes the slice into int-index calls itself, the override's own slice branch is never entered."""
+    if m not in decs:
+        return True, "no instrumented wrapper: the override is called directly"
+    d, w, fnparam = decs[m]
+    ps = [a.arg for a in w.args.args]
+    if len(ps) < 2:
+        return True, "wrapper signature not understood: assumed to pass slices on"
+    idx = ps[1]
+
+    def fact(e):
+        if isinstance(e, ast.Call) and isinstance(e.func, ast.Name) and e.func.id == "isinstance" and len(e.args) == 2 \
+                and isinstance(e.args[0], ast.Name) and e.args[0].id == idx and unparse(e.args[1]) == "slice":
+            return True
+        return None
+    g = ctx.cfg(w)
+    cut = tri_edges(g, fact)
+    reach = g.reachable([g.entry], edge_ok=lambda a, b, l: (a, l) not in cut)
+    calls = [c for c in calls_in(w) if call_name(c) == fnparam and len(c.args) >= 2
+             and isinstance(c.args[1], ast.Name) and c.args[1].id == idx]
+    hit = any(i in reach for c in calls for i in g.nodes_containing(c))
+    return hit, (f"the instrumented wrapper passes a slice on to the override (`{fnparam}(self, {idx}, ..)`)" if hit else
+                 f"the instrumented wrapper of orm.collections decomposes a slice into int-index calls and never passes it to the override")
+
+
 @R.rule("C50-R3", floor=8, template="T-MODEL",
         desc="small-scope model check by abstract execution of OrderingList's source: for every overridden list mutator, "
              "every list length 0..3, every int index in [-(n+2), n+2] (Python semantics: negative counts from the end, "
@@ -911,6 +939,7 @@ def r3(ctx):
     cls = ctx.index.cls(f"{OL}::OrderingList")
     members, order_only = python_mutators("list")
     done = 0
+    decs = _coll_decorators(ctx, _coll_interfaces(ctx)["list"])
     for m in members + order_only:
         f = cls.methods.get(m)
         if m not in LIST_SEM:
@@ -922,7 +951,12 @@ def r3(ctx):
         key = f"{f.key}:position==index"
         worst = None
         runs = 0
-        shapes = [LIST_SEM[m]["args"]] + ([SLICE_SEM[m]["args"]] if m in SLICE_SEM else [])
+        shapes = [LIST_SEM[m]["args"]]
+        slices = ""
+        if m in SLICE_SEM:
+            yes, slices = _slices_reach_override(ctx, decs, m)
+            if yes:
+                shapes.append(SLICE_SEM[m]["args"])
         for n in range(0, 4):
             for roa in (False, True):
                 for label, mk in [x for kinds in shapes for x in _ol_inputs(kinds, n)]:
@@ -950,7 +984,7 @@ def r3(ctx):
         ctx.check(worst is None, key,
                   "position != index after the operation: " + (worst[2] if worst else "")
                   + "; the wrong number is flushed and `order_by position` returns another order on reload",
-                  f"{runs} modelled runs end with position == index", f.loc)
+                  f"{runs} modelled runs end with position == index" + (f"; slices: {slices}" if slices else ""), f.loc)
         done += 1
     ctx.require(done > 0, "no overridden list mutator of OrderingList could be modelled")
 
